@@ -348,6 +348,29 @@ def check_markdown(rng):
             page = o.read_text()
             if svalues(page, True) + svalues(page, False) != svalues(mr.render(kk), True) + svalues(mr.render(kk), False):
                 out.append(("C03:command-line-scale-wrong", "--scale %r: shows %r, expected %r" % (text, svalues(page, True)[:4], svalues(mr.render(kk), True)[:4])))
+        # decimal factors on the command line, also ones that are no short fraction: every number is multiplied by exactly the factor written
+        from .c11 import own_format
+        g = scratch / "grains.md"
+        g.write_text("# Grains for 2\n\nUse {2097152} grains and {3} cups.\n\n    2097152 g sand\n")
+        for text in ("0.00000095367431640625", "0.000001", "1.0000001", "0.5", "1.25", "0.3333"):
+            o = scratch / "out2.html"
+            old = sys.argv
+            sys.argv = ["recipe-grid", str(g), str(o), "--scale", text, "-E"]
+            try:
+                with contextlib.redirect_stdout(io.StringIO()), contextlib.redirect_stderr(io.StringIO()):
+                    try:
+                        cli.main()
+                    except SystemExit as e:
+                        if e.code not in (0, None):
+                            out.append(("C03:command-line-scale-rejected", "--scale %r: exit %r" % (text, e.code)))
+                            continue
+            finally:
+                sys.argv = old
+            want = [own_format(2 * float(text)), own_format(2097152 * float(text)), own_format(3 * float(text))]
+            got = svalues(o.read_text(), False)
+            if got[:3] != want:
+                out.append(("C03:command-line-scale-wrong", "--scale %s: prose shows %r, the written numbers times the factor are %r" % (text, got[:3], want)))
+                break
     finally:
         shutil.rmtree(scratch, ignore_errors=True)
     return out
